@@ -308,11 +308,35 @@ Print Assumptions c09_lazy_bounds_agree.
    the header and canon of every record, and end with Ok(0).
    Premises: header_ok (as in c09_header_roundtrip); hdr_defs_ok (an INFO / FORMAT line whose ID
    is a reserved key carries the reserved Number and Type -- otherwise read_header is an error:
-   c09_file_witnesses); header_framed (no LF inside and no CR at the end of a written header line
-   -- quoted values may hold any byte); rec_ok of every record under the COMPUTED tables;
-   first_chrom_ok (the first record's CHROM does not start with '#': c09_file_first_chrom_hash);
-   [valid] accepts the byte strings made of bytes of the file. *)
+   c09_file_witnesses); hdr_vals_framed (a condition on the header VALUE, equivalent to "no LF inside
+   and no CR at the end of a written header line": c09_header_framed_values); rec_ok of every record
+   under the COMPUTED tables; [valid] accepts the byte strings made of bytes of the file.
+   The readers are those of the crate as the model switch header_stops_at_chrom_line stands (on
+   since ae9f807: read_header stops after the #CHROM line), so there is NO condition on the first
+   record's CHROM any more (former defect file-first-record-chrom-hash-read-as-header-line:
+   c09_file_first_chrom_hash, c09_file_first_chrom_hash_stop). *)
 Theorem c09_file_roundtrip :
+  forall fmt_float prs_float (FOK : N -> Prop),
+  (forall b, FOK b -> prs_float (fmt_float b) = Some b) ->
+  (forall b x, FOK b -> In x (fmt_float b) -> x <> 44 /\ x <> 9 /\ x <> 10 /\ x <> 59 /\ x <> 58) ->
+  (forall b, FOK b -> fmt_float b <> dot) ->
+  (forall b, FOK b -> fmt_float b <> []) ->
+  (forall b x, FOK b -> In x (fmt_float b) -> x <> 13) ->
+  forall valid hd rs text,
+  header_ok hd -> hdr_defs_ok hd = true -> hdr_vals_framed hd ->
+  Forall (rec_ok fmt_float FOK (hctx_of_header hd)) rs ->
+  (forall s, (forall b, In b s -> In b text) -> valid s = true) ->
+  write_file fmt_float hd rs = Some text ->
+  read_file_eager_cur prs_float valid text = Some (hd, (map (canon (hctx_of_header hd)) rs, true)) /\
+  read_file_lazy_cur prs_float valid text =
+    Some (hd, (map (fun r => Some (canon (hctx_of_header hd) r)) rs, true)).
+Proof. exact file_roundtrip_cur_vals. Qed.
+Print Assumptions c09_file_roundtrip.
+
+(* the same about the FORMER header reader (model switch off: every line starting with '#' is a
+   header line, /repo before ae9f807), where the premise first_chrom_ok was needed and the framing
+   premise was stated on the written lines (header_framed; see c09_header_framed_values) *)
+Theorem c09_file_roundtrip_former_reader :
   forall fmt_float prs_float (FOK : N -> Prop),
   (forall b, FOK b -> prs_float (fmt_float b) = Some b) ->
   (forall b x, FOK b -> In x (fmt_float b) -> x <> 44 /\ x <> 9 /\ x <> 10 /\ x <> 59 /\ x <> 58) ->
@@ -328,7 +352,7 @@ Theorem c09_file_roundtrip :
   read_file_lazy prs_float valid text =
     Some (hd, (map (fun r => Some (canon (hctx_of_header hd) r)) rs, true)).
 Proof. exact file_roundtrip. Qed.
-Print Assumptions c09_file_roundtrip.
+Print Assumptions c09_file_roundtrip_former_reader.
 
 (* non-vacuity and the role of the reserved table: a 4.3 file whose records use INFO AC and FORMAT
    DP without header lines for them is read back by both readers (AC as an Integer array: the
@@ -357,9 +381,11 @@ Proof.
 Qed.
 Print Assumptions c09_file_witnesses.
 
-(* first_chrom_ok is necessary: a first record whose CHROM starts with '#' is accepted by the
-   writer (the name is valid) and its line is then consumed by read_header as a header line:
-   neither reader gets the file back (input class file-first-record-chrom-hash-read-as-header-line) *)
+(* FORMER DEFECT file-first-record-chrom-hash-read-as-header-line (repaired in ae9f807), kept as a
+   statement about the FORMER reader model (switch off): a first record whose CHROM starts with '#'
+   is accepted by the writer and its line was consumed by read_header as a header line, so that
+   neither reader got the file back; with the switch on it is read back
+   (c09_file_first_chrom_hash_stop) *)
 Theorem c09_file_first_chrom_hash :
   exists hd rs text, write_file w_fmt hd rs = Some text /\
     (exists r tl, rs = [r] /\ r_chrom r = 35 :: tl) /\
@@ -509,13 +535,13 @@ Print Assumptions c09_header_roundtrip.
 
 (* WAVE 8 -- STRUCTURED OTHER RECORDS.  One written line ##key=<idtag=id,k=v,...> is parsed back
    to the map, for every key: META (parse_meta: the strict key / value / separator loop; Number,
-   Type and Values are written raw, Values=[..] is read up to the first ']' from 4.3), PEDIGREE
+   Type and Values are written raw, Values=[..] is read up to the first ']'), PEDIGREE
    (parse_pedigree: the same loop; before 4.3 Child= / Derived= is the identifier and becomes the
    map's identifier tag, which the writer emits again) and any other key (is_map, then parse_other:
    the split_field loop).  omap_ok: the ID is raw-safe (no ',' '>', no leading quote); field keys
    are distinct, hold no '=' and are not ID; META: identifier tag ID, a raw Number / Type / Values
-   is raw-safe -- from 4.3 Values may instead be '[' body ']' with no ']' in body (commas, '>' and
-   quotes allowed); PEDIGREE: identifier tag ID (before 4.3 also Child / Derived, and then no field
+   is raw-safe -- Values may instead be '[' body ']' with no ']' in body (commas, '>' and quotes
+   allowed; for every file format since 1f7dac7); PEDIGREE: identifier tag ID (before 4.3 also Child / Derived, and then no field
    is called Child / Derived); other keys: identifier tag ID, no field key starts with '>'. *)
 Theorem c09_header_other_map_roundtrip : forall ff key m, omap_ok ff key m ->
   p_other_value ff key (60 :: join 44 (omap_fields (bytes_eqb key k_META) m) ++ [62]) = Some (OVMap m).
@@ -531,16 +557,17 @@ Theorem c09_header_structured_witness :
 Proof. split; [exact x_meta_ok|exact witness_structured_roundtrip]. Qed.
 Print Assumptions c09_header_structured_witness.
 
-(* omap_ok asks raw-safety of META Values before 4.3, and that is necessary: the SAME header value
-   under VCF 4.2 (the 4.2 specification has ##META=<..,Values=[a, b]> lines too) is written with
-   the same lines, but parse_meta reads the Values list only from 4.3: the written header comes
-   back as a DIFFERENT header (input class header-meta-values-list-before-4.3-unparsable,
-   reproduced on the implementation) *)
-Theorem c09_header_meta_values_before_43_refuted :
-  exists ls h', write_header (x_meta (4, 2)) = Some ls /\ parse_header ls = Some h' /\ h' <> x_meta (4, 2) /\
+(* FORMER DEFECT header-meta-values-list-before-4.3-unparsable (repaired in 1f7dac7: parse_meta
+   reads the Values list for every file format; before, the 4.2 text came back as a different
+   header or not at all): the SAME header value under VCF 4.2 is inside header_ok (vals_ok is asked
+   of META Values whatever the file format), is written with the same lines as under 4.3, and is
+   parsed back *)
+Theorem c09_header_meta_values_before_43_roundtrip :
+  header_ok (x_meta (4, 2)) /\
+  exists ls, write_header (x_meta (4, 2)) = Some ls /\ parse_header ls = Some (x_meta (4, 2)) /\
     (exists ls', write_header (x_meta (4, 3)) = Some ls' /\ tl ls' = tl ls).
-Proof. exact witness_meta_values_before_43. Qed.
-Print Assumptions c09_header_meta_values_before_43_refuted.
+Proof. split; [exact x_meta_ok_42|exact witness_meta_values_before_43]. Qed.
+Print Assumptions c09_header_meta_values_before_43_roundtrip.
 
 (* WAVE 8 -- header_framed IS A CONDITION ON THE HEADER VALUE.  For a header the writer accepts,
    "no written line holds an LF or ends with CR" is EQUIVALENT to hdr_vals_framed: no LF in any
@@ -552,7 +579,8 @@ Theorem c09_header_framed_values : forall hd ls, write_header hd = Some ls ->
 Proof. exact header_framed_iff_vals. Qed.
 Print Assumptions c09_header_framed_values.
 
-(* ... hence the FILE theorem with every premise on values *)
+(* ... hence the FILE theorem of the FORMER reader model (switch off) with every premise on values;
+   the switch-on statement is c09_file_roundtrip above *)
 Theorem c09_file_roundtrip_values :
   forall fmt_float prs_float (FOK : N -> Prop),
   (forall b, FOK b -> prs_float (fmt_float b) = Some b) ->
@@ -582,31 +610,42 @@ Theorem c09_file_roundtrip_ascii_std :
   (forall b x, FOK b -> In x (fmt_float b) -> x <> 13) ->
   forall hd rs text,
   header_ok hd -> hdr_defs_ok hd = true -> hdr_vals_framed hd ->
-  Forall (rec_ok fmt_float FOK (hctx_of_header hd)) rs -> first_chrom_ok rs ->
+  Forall (rec_ok fmt_float FOK (hctx_of_header hd)) rs ->
   write_file fmt_float hd rs = Some text ->
   (forall b, In b text -> b < 128) ->
-  read_file_eager_std prs_float text = Some (hd, (map (canon (hctx_of_header hd)) rs, true)) /\
-  read_file_lazy_std prs_float text =
+  read_file_eager_cur_std prs_float text = Some (hd, (map (canon (hctx_of_header hd)) rs, true)) /\
+  read_file_lazy_cur_std prs_float text =
     Some (hd, (map (fun r => Some (canon (hctx_of_header hd) r)) rs, true)).
 Proof. exact file_roundtrip_ascii_std. Qed.
 Print Assumptions c09_file_roundtrip_ascii_std.
 
-(* WAVE 8 -- THE READER-SIDE REPAIR of file-first-record-chrom-hash-read-as-header-line, as a model
-   switch (NV.Vcf.FileStop.header_stops_at_chrom_line; false = /repo today, true = after
-   /tmp/C09/fixes/08): read_header stops after the line the parser takes for the #CHROM line (never
-   the first line), so the next line is a record even when it starts with '#'.  With the switch
-   off the model IS the old one; with it on, the file round trip needs NO condition on the first
-   CHROM, and the former failing file is read back. *)
+(* WAVE 8 -- THE READER-SIDE REPAIR of file-first-record-chrom-hash-read-as-header-line (ae9f807), as
+   a model switch (NV.Vcf.FileStop.header_stops_at_chrom_line, now true): read_header stops after
+   the line the parser takes for the #CHROM line (never the first line), so the next line is a
+   record even when it starts with '#'.  The parameterised readers with the switch OFF are the
+   former model; the readers of the crate (_cur) are the parameterised ones with the switch ON;
+   with it on, the file round trip needs NO condition on the first CHROM, and the former failing
+   file is read back. *)
 Theorem c09_header_stop_switch_off : forall prs valid text,
   read_file_eager_sw prs false valid text = read_file_eager prs valid text /\
-  read_file_lazy_sw prs false valid text = read_file_lazy prs valid text /\
-  read_file_eager_cur prs valid text = read_file_eager prs valid text /\
-  read_file_lazy_cur prs valid text = read_file_lazy prs valid text.
+  read_file_lazy_sw prs false valid text = read_file_lazy prs valid text.
 Proof.
-  intros prs valid text. split; [apply read_file_eager_sw_false|]. split; [apply read_file_lazy_sw_false|].
-  apply read_file_cur_is_old.
+  intros prs valid text. split; [apply read_file_eager_sw_false|apply read_file_lazy_sw_false].
 Qed.
 Print Assumptions c09_header_stop_switch_off.
+
+(* the same switch on a header given as lines (what the hw / hp kinds of the correspondence check
+   run: read_header_chk_cur) *)
+Theorem c09_header_lines_stop_switch_off : forall lines,
+  read_header_chk_sw false lines = read_header_chk lines.
+Proof. exact read_header_chk_sw_false. Qed.
+Print Assumptions c09_header_lines_stop_switch_off.
+
+Theorem c09_header_stop_switch_on : forall prs valid text,
+  read_file_eager_cur prs valid text = read_file_eager_sw prs true valid text /\
+  read_file_lazy_cur prs valid text = read_file_lazy_sw prs true valid text.
+Proof. exact read_file_cur_is_stop. Qed.
+Print Assumptions c09_header_stop_switch_on.
 
 Theorem c09_file_roundtrip_stop :
   forall fmt_float prs_float (FOK : N -> Prop),
